@@ -89,15 +89,22 @@ def c16_2(rep, ix, f, sh):
     fn, lp, idx, wl = f.node, sh["loop"], sh["idx"], sh["wire_loop"]
     q = u(wl.target)
     apps = [x for x in ast.walk(wl) if isinstance(x, ast.Call) and isinstance(x.func, ast.Attribute) and x.func.attr == "append"]
-    ok = len(apps) == 1 and isinstance(apps[0].func.value, ast.Subscript) and u(apps[0].func.value.slice) == q and isinstance(apps[0].args[0], (ast.List, ast.Tuple)) \
-        and u(apps[0].args[0].elts[0]) == idx
-    grid = u(apps[0].func.value.value) if ok else None
+    ok = False
+    grid = None
+    if len(apps) == 1 and apps[0].args and isinstance(apps[0].args[0], (ast.List, ast.Tuple)) and len(apps[0].args[0].elts) == 2 and u(apps[0].args[0].elts[0]) == idx:
+        recv = apps[0].func.value
+        if isinstance(recv, ast.Subscript) and u(recv.slice) == q:
+            grid = u(recv.value)
+            ok = True
+        elif isinstance(recv, ast.Call) and isinstance(recv.func, ast.Attribute) and recv.func.attr == "setdefault" and len(recv.args) == 2 and u(recv.args[0]) == q \
+                and isinstance(recv.args[1], ast.List) and not recv.args[1].elts:
+            grid = u(recv.func.value)
+            ok = True
     rep.check(ok, R, ix.site(f, apps[0]) if apps else ix.site(f), "each wire list receives [idx, command] by append, idx being the operation's position", key="append")
     if not ok:
         return
     sh["grid"] = grid
     sh["cmd"] = u(apps[0].args[0].elts[1])
-    # no other mutation of the wire lists
     bad = []
     for n in ast.walk(fn):
         if isinstance(n, ast.Call) and isinstance(n.func, ast.Attribute) and n.func.attr in ("insert", "sort", "reverse", "extend", "pop", "remove") and grid in u(n.func.value):
@@ -108,21 +115,36 @@ def c16_2(rep, ix, f, sh):
     rep.check(not bad, R, ix.site(f, bad[0]) if bad else ix.site(f), "wire lists are created empty and never reordered, inserted into or overwritten", "found `%s`" % (u(bad[0]) if bad else ""), key="wire mutation")
     # edges
     edges = [x for x in ast.walk(fn) if isinstance(x, ast.Call) and isinstance(x.func, ast.Attribute) and x.func.attr in ("add_edge", "add_edges_from", "add_weighted_edges_from")]
-    gl = [n for n in fn.body if isinstance(n, ast.For) and u(n.iter) == "%s.items()" % grid]
-    if len(gl) != 1 or len(edges) != 1 or edges[0].func.attr != "add_edge":
+    gl = [n for n in fn.body if isinstance(n, ast.For) and u(n.iter) in ("%s.items()" % grid, "%s.values()" % grid)]
+    if len(gl) != 1 or len(edges) != 1 or edges[0].func.attr != "add_edge" or len(edges[0].args) != 2:
         raise Inconclusive("to_DiGraph: edge construction not recognised (%d add_edge calls)" % len(edges))
-    cm = u(gl[0].target.elts[1]) if isinstance(gl[0].target, ast.Tuple) else None
+    cm = u(gl[0].target.elts[1]) if isinstance(gl[0].target, ast.Tuple) else u(gl[0].target)
     e = edges[0]
     il = [n for n in ast.walk(gl[0]) if isinstance(n, ast.For) and n is not gl[0] and any(x is e for x in ast.walk(n))]
     il = [n for n in il if not any(m is not n and any(x is m for x in ast.walk(n)) for m in il)]
-    ok_loop = len(il) == 1 and isinstance(il[0].target, ast.Name) and u(il[0].iter) == "range(1, len(%s))" % cm
-    i = u(il[0].target) if il else None
-    ok_edge = len(e.args) == 2 and u(e.args[0]) == "%s[%s - 1][0]" % (cm, i) and u(e.args[1]) == "%s[%s][0]" % (cm, i)
-    rev = len(e.args) == 2 and u(e.args[1]) == "%s[%s - 1][0]" % (cm, i) and u(e.args[0]) == "%s[%s][0]" % (cm, i)
-    if ok_loop and not ok_edge and not rev:
-        raise Inconclusive("to_DiGraph: add_edge arguments `%s` outside the idiom set" % u(e))
-    rep.check(ok_loop and ok_edge, R, ix.site(f, e), "add_edge(cmds[i-1][0], cmds[i][0]) for i in range(1, len(cmds)): every edge goes from an earlier to a later operation of one wire",
-              "got `%s` in loop `%s`" % (u(e), u(il[0].iter) if il else None), key="edge")
+    if len(il) != 1:
+        raise Inconclusive("to_DiGraph: loop around add_edge not recognised")
+    l = il[0]
+    a0, a1 = " ".join(u(e.args[0]).split()), " ".join(u(e.args[1]).split())
+    verdict = None
+    if isinstance(l.target, ast.Name) and " ".join(u(l.iter).split()) == "range(1, len(%s))" % cm:
+        i = l.target.id
+        fwd = (a0, a1) == ("%s[%s - 1][0]" % (cm, i), "%s[%s][0]" % (cm, i))
+        rev = (a1, a0) == ("%s[%s - 1][0]" % (cm, i), "%s[%s][0]" % (cm, i))
+        verdict = True if fwd else (False if rev else None)
+    elif " ".join(u(l.iter).split()) in ("zip(%s, %s[1:])" % (cm, cm), "zip(%s[:-1], %s[1:])" % (cm, cm)) and isinstance(l.target, ast.Tuple) and len(l.target.elts) == 2:
+        def index_of(t):
+            if isinstance(t, ast.Tuple) and t.elts:
+                return u(t.elts[0])
+            return u(t) + "[0]"
+        p, c = index_of(l.target.elts[0]), index_of(l.target.elts[1])
+        fwd = (a0, a1) == (p, c)
+        rev = (a0, a1) == (c, p)
+        verdict = True if fwd else (False if rev else None)
+    if verdict is None:
+        raise Inconclusive("to_DiGraph: add_edge arguments `%s` in loop `%s` outside the idiom set" % (u(e), u(l.iter)))
+    rep.check(verdict, R, ix.site(f, e), "every edge joins the index components of two consecutive entries of one wire list, earlier -> later (hence forward, acyclic, per-wire program order)",
+              "got `%s` in loop `for %s in %s`" % (u(e), u(l.target), u(l.iter)), key="edge")
 
 
 def c16_ord(rep, ix, f):
@@ -139,7 +161,7 @@ def c16_ord(rep, ix, f):
 
 def c16_3(rep, ix, f, sh):
     R = "C16.3"
-    rep.rule(R, "one node per operation carrying name <- op['op'], args, kwargs, modes <- tuple(op['modes']); every appended command becomes a node", floor=3)
+    rep.rule(R, "one node per operation carrying name <- op['op'], args, kwargs, modes <- tuple(op['modes']); every appended command becomes a node", floor=2)
     fn, op = f.node, sh["op"]
     cmd = sh.get("cmd")
     if cmd is None:
@@ -163,11 +185,20 @@ def c16_3(rep, ix, f, sh):
         ok = want_name and want_modes and okargs
         detail = str(kw)
     rep.check(ok, R, ix.site(f, defs[0]) if defs else ix.site(f), "Command(name=op['op'], args=<op args>, kwargs=<op kwargs>, modes=tuple(op['modes']))", detail, key="command")
-    nodes = [x for x in ast.walk(fn) if isinstance(x, ast.Call) and isinstance(x.func, ast.Attribute) and x.func.attr == "add_node"]
-    okn = len(nodes) >= 1 and all(len(x.args) == 1 and x.keywords and x.keywords[0].arg is None and u(x.keywords[0].value) == "attrs" for x in nodes)
-    rep.check(okn, R, ix.site(f), "nodes are added as add_node(<index>, **attrs) with attrs = command._asdict()", key="add_node")
-    asd = [n for n in ast.walk(fn) if isinstance(n, ast.Assign) and u(n.targets[0]) == "attrs"]
-    rep.check(asd and all(u(n.value).endswith("[1]._asdict()") for n in asd), R, ix.site(f), "attrs is the appended command's field dictionary", key="attrs")
+    nodes = [(g, x) for g in [ff for qq, ff in ix.funcs.items() if ff.mod == "utils"] for x in ast.walk(g.node) if isinstance(x, ast.Call) and isinstance(x.func, ast.Attribute) and x.func.attr == "add_node"]
+    okn = bool(nodes)
+    for g, x in nodes:
+        star = [k.value for k in x.keywords if k.arg is None]
+        good = len(x.args) == 1 and len(star) == 1 and len(x.keywords) == 1
+        if good:
+            v = star[0]
+            if isinstance(v, ast.Name):
+                defs = [n for n in ast.walk(g.node) if isinstance(n, ast.Assign) and u(n.targets[0]) == v.id]
+                good = bool(defs) and all(u(n.value).endswith("._asdict()") for n in defs)
+            else:
+                good = u(v).endswith("._asdict()")
+        okn = okn and good
+    rep.check(okn, R, ix.site(f), "nodes are added as add_node(<index>, **<command>._asdict()): the node attributes are the command's fields", key="add_node")
 
 
 def c16_4(rep, ix, f):
